@@ -119,7 +119,14 @@ RULE = ('(a) streams of 0..6 packets (types/lengths at the 1/3/5/9-byte TL-numbe
         'random reception stream, 12% of whose cases run under default / refusing validators. '
         '(f) the same for the UDP face: 1..7 datagrams (packets, empty, truncated inside the Type number, two '
         'packets in one datagram), 0..2 loop iterations after each, connection_lost and / or app.shutdown() at random '
-        'instants, raising receive steps. non-trivial = a malformed packet met a state '
+        'instants, raising receive steps. (h) ONE face object (StreamFace.open + run by hand) and one application object (main_loop '
+        'called again, both front-ends) over 2..4 connections in turn: each connection is a task-layer script over its own new '
+        'StreamReader and ends orderly on a packet boundary / inside a packet (the first connection at EVERY cut position of a '
+        'packet with 3-byte Type and Length, random cuts inside headers and values otherwise) / in the same pass as its last '
+        'bytes / by a connection reset / another transport error / shutdown() at any instant / the transport closed under the '
+        'waiting reader; the next connection is opened after the loop came to rest or at once; every connection is judged '
+        'against the complete packets of its OWN stream, and on the application layers half of the connections express an '
+        'Interest whose Data is part of that connection\'s stream (oracle only). non-trivial = a malformed packet met a state '
         'with a pending Interest or handler, or a stream was cut inside a TL number; distinct = distinct cases')
 
 LP = 0x64
@@ -651,6 +658,110 @@ def tasks_cases(rng, pool, short, quick):
         yield {'k': 'tasks', 'fe': ('v2', 'v1')[i % 2], 'raises': raises, 'script': sc}
 
 
+def _conn_script(rng, pool, short, partial_mode):
+    """one connection's script (the shape of the random `tasks` scripts): 0..5 packets + a partial one (partial_mode:
+    'none' / 'header' = the stream stops inside the Type / Length numbers / 'any' = any cut position) cut into chunks,
+    single loop iterations, and one of the ways a connection ends.  Returns (script, packets)."""
+    pk = [rng.choice(short if rng.random() < 0.7 else pool) for _ in range(rng.randint(0, 5))]
+    nxt = rng.choice(short if rng.random() < 0.6 else pool)
+    if partial_mode == 'none':
+        partial = b''
+    elif partial_mode == 'header':
+        t = read_num(nxt, 0)
+        partial = nxt[:rng.randint(1, max(1, min(len(nxt) - 1, read_num(nxt, t[1])[1])))]
+    else:
+        partial = nxt[:rng.randint(1, len(nxt) - 1)]
+    s = b''.join(pk) + partial
+    cuts = sorted(rng.randrange(0, len(s) + 1) for _ in range(rng.randint(0, 4)))
+    sc = []
+    for a, b in zip([0] + cuts, cuts + [len(s)]):
+        sc.append(['feed', s[a:b].hex()])
+        sc += [['iter']] * rng.choice([0, 1, 1, 2])
+    end = rng.choice(['eof', 'eof', 'eof-same-pass', 'eof-same-pass', 'closed', 'reset', 'other', 'shutdown-end', 'shutdown-mid'])
+    if end == 'eof':
+        sc += [['iter'], ['eof']]
+    elif end == 'eof-same-pass':
+        while sc and sc[-1][0] == 'iter':
+            sc.pop()
+        sc.append(['eof'])
+    elif end in ('reset', 'other'):
+        sc += [['iter'], [end]]
+    elif end == 'shutdown-end':
+        sc.append(['shutdown'])
+    elif end == 'shutdown-mid':
+        sc.insert(rng.randrange(len(sc) + 1), ['shutdown'])
+    # 'closed' / after a shutdown(): the script leaves the stream open - the transport goes away when the connection is given up
+    sc += [['iter']] * rng.choice([0, 1, 2])
+    return sc, pk
+
+
+def _ask_packet(i):
+    """the Data packet that answers the Interest the application expresses on its connection number i"""
+    from ndn.encoding import make_data, MetaInfo
+    return bytes(make_data('/conn/%d/q' % i, MetaInfo(), b'answer-%d' % i))
+
+
+def conns_cases(rng, pool, short, quick):
+    """(h) ONE FACE OBJECT (and one application object) OVER SEVERAL CONNECTIONS: open / run / the connection ends
+    (orderly on a packet boundary, in the middle of a packet at every cut position, in the same pass as the last bytes,
+    connection reset, another transport error, shutdown() at any instant, the transport closed under a waiting reader) /
+    open again on the SAME object - StreamFace.open + run directly ('face') and main_loop called again on the same
+    NDNApp (both front-ends).  Every connection is judged by itself: what it hands over is exactly the sequence of
+    complete packets of ITS OWN stream.  On the application layers a connection may also express an Interest whose Data
+    is part of the connection's stream (oracle: it is answered when the connection lives until the loop is at rest)."""
+    A, C, D = tlv(6, b'aaa'), tlv(5, b'cc'), tlv(0xfd, b'd')
+    # systematic: the first connection ends inside packet B at EVERY cut position (B: 3-byte Type, 3-byte Length), in every
+    # way a connection ends; the second connection on the same object carries exactly C D
+    B = b'\xfd\x01\x00\xfd\x00\x04bbbb'
+    ends = {'eof': [['iter'], ['eof'], ['iter']], 'eof-same-pass': [['eof']], 'reset': [['iter'], ['reset']],
+            'other': [['iter'], ['other']], 'shutdown': [['iter'], ['shutdown']], 'closed': [['iter']]}
+    n = 0
+    for cut in range(0, len(B)):
+        for end in sorted(ends):
+            # quick tier: every (cut, end) on the face alone, a third of them (and two cuts in full) through the applications
+            thin = quick and cut not in (1, 4) and (cut + n) % 3 != 0
+            n += 1
+            for layer in ('face',) if thin else ('face', 'v2', 'v1'):
+                first = [['feed', A.hex()], ['iter'], ['feed', B[:cut].hex()]] + ends[end]
+                second = [['feed', (C + D).hex()], ['iter'], ['iter'], ['eof']]
+                yield {'k': 'conns', 'layer': layer, 'conns': [{'script': first, 'raises': []}, {'script': second, 'raises': []}]}
+    # three connections, the unfinished packet of the first is LONGER than everything the others carry; no rest between
+    for layer in ('face', 'v2', 'v1'):
+        big = tlv(6, b'L' * 300)
+        yield {'k': 'conns', 'layer': layer, 'conns': [
+            {'script': [['feed', big[:200].hex()], ['eof']], 'raises': [], 'norest': True},
+            {'script': [['feed', C.hex()], ['eof']], 'raises': [], 'norest': True},
+            {'script': [['feed', (D + A).hex()], ['iter'], ['eof']], 'raises': []}]}
+    for i in range(80 if quick else 1500):
+        layer = ('v2', 'v1', 'face')[i % 3]
+        conns = []
+        for ci in range(rng.choice([2, 2, 3, 4])):
+            for _ in range(20):
+                sc, pk = _conn_script(rng, pool, short, rng.choice(['none', 'header', 'any', 'any']))
+                if _conn_valid(sc):
+                    break
+            else:
+                sc, pk = [['feed', A.hex()], ['eof']], [A]
+            conn = {'script': sc, 'raises': sorted(set(rng.randrange(len(pk)) for _ in range(rng.choice([0, 0, 0, 1])))) if pk else []}
+            if layer != 'face' and rng.random() < 0.5:
+                # the Data for this connection's Interest is put into the stream (glued to the front of one of the chunks)
+                # and somewhere behind it the connection is left alone until the loop is at rest
+                feeds = [j for j, a in enumerate(sc) if a[0] == 'feed']
+                stops = [j for j, a in enumerate(sc) if a[0] in ('eof', 'reset', 'other', 'shutdown')]
+                cand = [j for j in feeds if stops and j < stops[0] and _feed_on_boundary(sc, j)]
+                if cand:
+                    j = rng.choice(cand)
+                    sc[j] = ['feed', _ask_packet(ci).hex() + sc[j][1]]
+                    sc.insert(rng.randint(j + 1, stops[0]), ['settle'])
+                    conn['ask'] = ci
+                    conn['ask_data'] = _ask_packet(ci).hex()
+                    conn['raises'] = []
+            if rng.random() < 0.3:
+                conn['norest'] = True       # the next connection is opened as soon as this one is over (a reconnect loop)
+            conns.append(conn)
+        yield {'k': 'conns', 'layer': layer, 'conns': conns}
+
+
 def unusual_signed_packets():
     """[(tag, wire)]: hand-built, structurally UNUSUAL but digest-consistent signed Interests and Data (written with
     pktcommon's writers, not the library's encoders): every optional element of the signed part absent / empty /
@@ -946,6 +1057,8 @@ def cases(rng, tier):
             # assumes validators that pass)
             c['val'] = rng.choice(['default', 'default', 'fail'])
         yield c
+    # --- (h) one face / application object over several connections -------------------------------
+    yield from conns_cases(rng, pool, short, quick)
 
 
 def shrink(case):
@@ -978,6 +1091,25 @@ def _shrink(case):
             yield {**case, 'script': sc[:i] + sc[i + 1:]}
         if case.get('raises'):
             yield {**case, 'raises': case['raises'][1:]}
+        return
+    if k == 'conns':
+        cs = case['conns']
+        for i in range(len(cs)):
+            if len(cs) > 1:
+                yield {**case, 'conns': cs[:i] + cs[i + 1:]}
+        for i, conn in enumerate(cs):
+            sc = conn['script']
+            for key in ('norest', 'ask'):
+                if key in conn:
+                    yield {**case, 'conns': cs[:i] + [{k2: v for k2, v in conn.items() if k2 not in (key, key + '_data')}] + cs[i + 1:]}
+            if conn.get('raises'):
+                yield {**case, 'conns': cs[:i] + [{**conn, 'raises': conn['raises'][1:]}] + cs[i + 1:]}
+            for j in range(len(sc)):
+                if _conn_valid(sc[:j] + sc[j + 1:]):
+                    yield {**case, 'conns': cs[:i] + [{**conn, 'script': sc[:j] + sc[j + 1:]}] + cs[i + 1:]}
+            for j, a in enumerate(sc):
+                if a[0] == 'feed' and len(a[1]) > 2:
+                    yield {**case, 'conns': cs[:i] + [{**conn, 'script': sc[:j] + [['feed', a[1][:-2]]] + sc[j + 1:]}] + cs[i + 1:]}
         return
     if k == 'tasks':
         sc = case['script']
@@ -1323,6 +1455,176 @@ def run_tasks(case):
                 'cleanup': cleanups[0] if cleanups else None, 'ncleanups': len(cleanups), 'status': status,
                 'running': bool(face.running), 'closed': face.writer.closed if face.writer else -1, 'hung': hung,
                 'errors': [list(e) for e in loop.errors]}
+
+
+# ------------------------------------------------- implementation: one face object over several connections
+def _conn_valid(script):
+    return _tasks_valid([['iter'] if a[0] == 'settle' else a for a in script])
+
+
+def _complete_packets(s):
+    """[(Type, packet)] the complete top-level elements of a byte string, and the offset behind the last one
+    (independent of the library)"""
+    want, pos = [], 0
+    while True:
+        t = read_num(s, pos)
+        l = read_num(s, t[1]) if t else None
+        if not t or not l or l[1] + l[0] > len(s):
+            return want, pos
+        want.append([t[0], s[pos:l[1] + l[0]].hex()])
+        pos = l[1] + l[0]
+
+
+def _feed_on_boundary(script, j):
+    s = b''.join(bytes.fromhex(a[1]) for a in script[:j] if a[0] == 'feed')
+    return _complete_packets(s)[1] == len(s)
+
+
+def run_conns(case):
+    """ONE StreamFace object - and on the application layers one NDNApp object - used for several connections in turn.
+    Every connection: face.open() (a new StreamReader / writer, as UnixFace.open / TcpFace.open get from the platform),
+    the real StreamFace.run (layer 'face': open + run + shutdown by hand; 'v2' / 'v1': the real main_loop called AGAIN on
+    the same application), the connection's script, and then the connection is given up: a transport that is still open
+    is closed (the reader sees EOF, what asyncio does when the socket goes away).  The per-packet callback notes for
+    which connection a task was CREATED."""
+    from ndn.transport.stream_face import StreamFace
+    from ndn import types
+    layer = case['layer']
+
+    class F(StreamFace):
+        async def open(self):
+            self.reader = asyncio.StreamReader()
+            self.writer = _Writer()
+            self.running = True
+
+        def isLocalFace(self):
+            return True
+
+    def go(loop, app, face, orig):
+        cur = [None]
+
+        async def _cb(rec, i, typ, buf):
+            rec['entered'].append(i)
+            if i in rec['raises']:
+                rec['raised'].append(i)
+                raise RuntimeError('scripted failure of a receive step')
+            if orig is not None:
+                try:
+                    await orig(typ, buf)
+                except BaseException as e:       # noqa - the per-packet task ends with it: nobody awaits that task
+                    rec['bg'].append(cls_name(type(e).__name__))
+                    raise
+
+        def cb(typ, buf):
+            rec = cur[0]
+            rec['created'].append([typ, bytes(buf).hex()])
+            return _cb(rec, len(rec['created']) - 1, typ, buf)
+        face.callback = cb
+
+        def one_iter():
+            loop.call_soon(loop.stop)
+            loop.run_forever()
+        out = []
+        for ci, conn in enumerate(case['conns']):
+            rec = {'created': [], 'entered': [], 'raised': [], 'raises': set(conn.get('raises', [])), 'answer': None, 'bg': [],
+                   'hung': False, 'status': None}
+            cur[0] = rec
+            out.append(rec)
+
+            async def ask(n=conn.get('ask'), rec=rec):
+                try:
+                    if layer == 'v2':
+                        from ndn import appv2
+                        r = await app.express('/conn/%d/q' % n, validator=appv2.pass_all, lifetime=600000)
+                        rec['answer'] = ['data', bytes(r[1]).hex()]
+                    else:
+                        async def ok(name, sig):
+                            return True
+                        r = await app.express_interest('/conn/%d/q' % n, validator=ok, lifetime=600000)
+                        rec['answer'] = ['data', bytes(r[2]).hex()]
+                except types.InterestNack as e:
+                    rec['answer'] = ['nack', e.reason]
+                except BaseException as e:        # noqa
+                    rec['answer'] = ['exc', type(e).__name__]
+
+            async def bare():
+                await face.open()
+                try:
+                    await face.run()
+                except BaseException:      # noqa - what the owner of a face does when run() fails
+                    face.shutdown()
+                    raise
+            if app is None:
+                main = loop.create_task(bare())
+            else:
+                main = loop.create_task(app.main_loop(ask() if conn.get('ask') is not None else None))
+            try:
+                loop.settle(limit=2000)
+                over = False
+                for act in conn['script']:
+                    if act[0] == 'feed':
+                        face.reader.feed_data(bytes.fromhex(act[1]))
+                    elif act[0] == 'eof':
+                        face.reader.feed_eof()
+                        over = True
+                    elif act[0] == 'reset':
+                        face.reader.set_exception(ConnectionResetError())
+                        over = True
+                    elif act[0] == 'other':
+                        face.reader.set_exception(OSError('scripted'))
+                        over = True
+                    elif act[0] == 'shutdown':
+                        (face if app is None else app).shutdown()
+                    elif act[0] == 'iter':
+                        one_iter()
+                    elif act[0] == 'settle':
+                        loop.settle(limit=2000)
+                if not over and not main.done():
+                    face.reader.feed_eof()         # the connection is given up: the socket goes away
+                if conn.get('norest'):
+                    # a reconnect loop: the next connection is opened as soon as this one is over; the per-packet tasks
+                    # this connection left to the loop run while the next one is being set up
+                    for _ in range(200):
+                        if main.done():
+                            break
+                        one_iter()
+                else:
+                    loop.settle(limit=2000)
+            except RuntimeError:
+                rec['hung'] = True
+            if not main.done():
+                rec['hung'] = True
+                rec['status'] = 'running'
+            elif not main.cancelled() and main.exception() is not None:
+                raw = type(main.exception()).__name__
+                rec['status'] = 'crashed:' + (raw if raw in ('IncompleteReadError', 'ConnectionResetError') else 'Other')
+            else:
+                rec['status'] = 'shutdown'
+            rec['running'] = bool(face.running)
+            if rec['hung']:
+                break
+        try:
+            loop.settle(limit=2000)
+        except RuntimeError:
+            out[-1]['hung'] = True
+        # what ends a per-packet task is noted where it happens (rec['bg']); the young generations are collected so that
+        # other tasks that ended with an error nobody retrieved reach the loop's handler (a full collection per case
+        # costs more than the case)
+        import gc
+        gc.collect(1)
+        for rec in out:
+            del rec['raises']
+        return {'conns': out, 'errors': [list(e) for e in loop.errors]}
+    if layer == 'face':
+        loop = vloop.new_loop()
+        try:
+            return go(loop, None, F(), None)
+        finally:
+            loop.shutdown()
+    with AppRig(layer) as rig:
+        face = F()
+        rig.app.face = face
+        return go(rig.loop, rig.app, face, rig.app._receive)
 
 
 def _utasks_plan(case):
@@ -1673,6 +1975,8 @@ def run_impl(case):
         return run_tasks(case)
     if case['k'] == 'utasks':
         return run_utasks(case)
+    if case['k'] == 'conns':
+        return run_conns(case)
     return run_recv(case)
 
 
@@ -1761,6 +2065,8 @@ def model_line(case, impl):
         return 'C06 tasks ' + ' '.join(_tasks_plan(case)[0])
     if k == 'utasks':
         return 'C06 utasks ' + ' '.join(_utasks_plan(case)[0])
+    if k == 'conns':
+        return None          # several connections of one face object: each is judged by the oracle (the model is one connection)
     if case.get('val'):
         return None          # validators that may refuse are outside the reception model (it assumes they pass): oracle only
     if k == 'turn':
@@ -1894,6 +2200,8 @@ def oracle(case, impl):
         return _oracle_tasks(case, impl)
     if k == 'utasks':
         return _oracle_utasks(case, impl)
+    if k == 'conns':
+        return _oracle_conns(case, impl)
     if k == 'stream':
         s = _stream_bytes(case)
         if impl['hung']:
@@ -2054,6 +2362,59 @@ def _oracle_tasks(case, impl):
     return None
 
 
+def _answer_due(conn):
+    """the Data answering this connection's Interest is a complete packet of the connection's stream, its receive step is
+    not scripted to fail, and after the chunk that completes it the connection is left alone until the loop is at rest
+    (a `settle`) before anything ends it"""
+    sc = conn['script']
+    want, _ = _complete_packets(b''.join(bytes.fromhex(a[1]) for a in sc if a[0] == 'feed'))
+    idx = next((i for i, w in enumerate(want) if w[1] == conn['ask_data']), None)
+    if idx is None or idx in conn.get('raises', []):
+        return False
+    end = sum(len(w[1]) // 2 for w in want[:idx + 1])
+    fed = 0
+    for j, a in enumerate(sc):
+        if a[0] in ('eof', 'reset', 'other', 'shutdown'):
+            return False
+        if a[0] == 'feed':
+            fed += len(a[1]) // 2
+        if a[0] == 'settle' and fed >= end:
+            return True
+    return False
+
+
+def _oracle_conns(case, impl):
+    """from the statement, for EVERY connection of the one face object: exactly the sequence of complete packets of the
+    connection's own byte stream, each once and in order, never a partial packet, shut down when the stream ends; no
+    background task ends with an unhandled error (other than the scripted failures, one each); a pending Interest that
+    the packets of the stream do not address otherwise completes normally with its Data"""
+    n = len(case['conns'])
+    where = 'face' if case['layer'] == 'face' else 'application (%s)' % case['layer']
+    for ci, conn in enumerate(case['conns']):
+        head = f'connection {ci + 1} of {n} on the same {where} object: '
+        if ci >= len(impl['conns']):
+            break
+        rec = impl['conns'][ci]
+        sub = {'hung': rec['hung'], 'created': rec['created'], 'entered': rec['entered'], 'raised': rec['raised'],
+               'errors': [['RuntimeError', '']] * len(rec['raised']), 'status': rec['status']}
+        why = _oracle_tasks({'script': conn['script']}, sub)
+        if why:
+            return head + why
+        acts = [a[0] for a in conn['script']]
+        if ('eof' in acts or 'reset' in acts) and rec['running']:
+            return head + 'tasks: the face did not shut down when the stream ended'
+        if conn.get('ask') is not None and _answer_due(conn):
+            if rec['answer'] != ['data', (b'answer-%d' % conn['ask']).hex()]:
+                return (head + f"the Interest expressed on this connection was answered by a complete, valid Data packet of "
+                        f"the connection's stream but finished as {rec['answer']}")
+    raised = sum(len(r['raised']) for r in impl['conns'])
+    bg = [e[0] for e in impl['errors']]
+    other = [e for r in impl['conns'] for e in r['bg']] + [e for e in bg if e != 'RuntimeError']
+    if other or len(bg) > raised:
+        return f"connections on the same {where} object: a background task ended with an unhandled error ({(other or ['?'])[0]})"
+    return None
+
+
 def _oracle_utasks(case, impl):
     """every datagram that starts with a readable Type number is handed over whole, once, in order of arrival; the others
     are dropped; nothing ends with an unhandled error except the scripted failures"""
@@ -2081,6 +2442,8 @@ def _oracle_utasks(case, impl):
 
 
 def nontrivial(case, impl):
+    if case['k'] == 'conns':
+        return len(impl['conns']) >= 2 and any(r['created'] for r in impl['conns'][1:])
     if case['k'] in ('tasks', 'utasks'):
         return len(impl['created']) >= 1
     if case['k'] == 'stream':
@@ -2094,7 +2457,21 @@ def nontrivial(case, impl):
 
 def tags(case, impl):
     t = ['kind:' + case['k']]
-    if case['k'] == 'utasks':
+    if case['k'] == 'conns':
+        t.append('conns:' + case['layer'])
+        t.append('conns-connections:%d' % len(case['conns']))
+        for ci, conn in enumerate(case['conns'][:-1]):
+            acts = [a[0] for a in conn['script']]
+            fed = b''.join(bytes.fromhex(a[1]) for a in conn['script'] if a[0] == 'feed')
+            mid = _complete_packets(fed)[1] < len(fed)
+            how = next((a for a in acts if a in ('eof', 'reset', 'other', 'shutdown')), 'closed')
+            t.append('conns-earlier-connection-ended:%s:%s' % (how, 'mid-packet' if mid else 'on-boundary'))
+            if conn.get('norest'):
+                t.append('conns-reopened-at-once')
+        for conn, rec in zip(case['conns'], impl['conns']):
+            if conn.get('ask') is not None:
+                t.append('conns-interest:' + ('answer-due' if _answer_due(conn) else 'not-due') + ':' + str((rec['answer'] or ['none'])[0]))
+    elif case['k'] == 'utasks':
         acts = [a[0] for a in case['script']]
         t.append('udp-tasks:' + case['fe'])
         t.append('udp-tasks-created:%d' % min(len(impl['created']), 6))
